@@ -5,7 +5,13 @@ import WpModel.Drive.TableRows
 import WpModel.Drive.TablePages
 import WpModel.Drive.TablePreferred
 import WpModel.Drive.TableRowHeights
+import WpModel.Drive.TableCellSplit
+import WpModel.Drive.TableCellWidth
+import WpModel.Drive.TableBorderDraw
+import WpModel.Drive.TableSplitBorders
 
 def main : IO Unit := Wp.Drive.runDriver
   [Wp.Drive.Table.handle, Wp.Drive.Borders.handle, Wp.Drive.TableRows.handle, Wp.Drive.TablePages.handle,
-   Wp.Drive.TablePref.handle, Wp.Drive.RowHeights.handle]
+   Wp.Drive.TablePref.handle, Wp.Drive.RowHeights.handle, Wp.Drive.TableCellSplit.handle,
+   Wp.Drive.TableCellWidth.handle, Wp.Drive.BorderDraw.handle,
+   Wp.Drive.SplitBorders.handle]
